@@ -245,6 +245,24 @@ def r3(R):
     for v in (ns, nf):
         R.check(("<", "65535", v) in conds and ("<", v, "1") in conds, "C14.R3", SP, h.line, "mask_to_coo", "%s rejected unless 1 <= %s <= 65535" % (v, v),
                 "an image dimension beyond the 16-bit coordinate range is accepted: coordinates wrap")
+    # -- mask_to_coo: the mask arrives as signed 8-bit (f2py narrows the caller's bool / uint8 / int array): 'selected' must mean
+    # non-zero; an ordering test ( > 0 ) would drop the values 128..255 that the Python side ( mask > 0 ) counts
+    mparam = h.params[0]
+    ntests = 0
+    for st in swalk(h.body):
+        if st.k in ("if", "while", "for") and st.cond is not None:
+            for e_, pol_ in _conj(st.cond) if st.cond.k == "bin" and st.cond.op == "&&" else [(st.cond, True)]:
+                if not any(x.k == "idx" and estr(x.a[0]) == mparam.name for x in ewalk(e_)):
+                    continue
+                ntests += 1
+                rl = crules.rel_lin(e_, True)
+                okm = rl is not None and rl[0] in ("!=", "==") and len(rl[1].atoms()) == 1 and rl[1].is_const() is False and \
+                    all(isinstance(a_, tuple) and a_[0] == "load" and a_[1].startswith(mparam.name + "[") for a_ in rl[1].atoms()) and \
+                    rl[1].without(list(rl[1].atoms())[0]).is_zero()
+                R.check(okm, "C14.R3", SP, e_.line or st.line, "mask_to_coo", "mask test %s is (in)equality with zero" % estr(e_),
+                        "the %s mask element is tested with an ordering or against a non-zero value: mask values with the top bit set "
+                        "(128..255 in the caller's array, negative here) are selected by the Python side (mask > 0) but not by the kernel" % (mparam.ty or "int8"))
+    R.shape(ntests >= 2, "C14.R3", SP, "mask_to_coo", "the mask tests of the counting and the filling pass")
     # -- compress_duplicates writes the last run and returns c+1
     cd = cfront.find_func(tus, "compress_duplicates", SP)
     top = cd.body.body if cd.body.k == "block" else []
